@@ -55,7 +55,9 @@ func assignResize(left, right *token) {
 
 func assignLed(p *parser, t *token, left *token) *token {
 	t.Append(left)
-	t.Append(p.Expression(getSymbol(t).Lbp))
+	// the right-hand side stays inside the enclosing if/for/switch header, so
+	// the header's mask still applies: in "for ...; p = p.next {" the { opens the body
+	t.Append(p.Expression(getSymbol(t).Lbp, p.mask...))
 	t.Tokens[0] = plural(t.Tokens[0])
 	assignResize(t.Tokens[0], t.Tokens[1])
 	return t
@@ -313,7 +315,7 @@ func importNud(p *parser, t *token) *token {
 func commaLed(p *parser, t *token, left *token) *token {
 	t.Append(left)
 	for {
-		t.Append(p.Expression(commaBP))
+		t.Append(p.Expression(commaBP, p.mask...)) // the items of a list keep the header's mask
 		if p.Token.Symbol != "," {
 			break
 		}
